@@ -138,6 +138,7 @@ type Spec struct {
 	Conds        []CondSpec    `json:"conds"`
 	ModelImports []string      `json:"model_imports"` // hand-written Model modules (receiver structures of translated predicates)
 	Tables      []TableSpec `json:"tables"`
+	StrLists    []StrListSpec `json:"strlists"` // see strlist.go
 }
 
 var fset = token.NewFileSet()
@@ -1242,6 +1243,9 @@ func genModule(repo string, spec *Spec, outDir string) {
 	cs.WriteString("open Tunnox.PredPrelude\nnamespace Gen\n\n")
 	for i := range spec.Tables {
 		genTable(repo, &spec.Tables[i], &cs)
+	}
+	for i := range spec.StrLists {
+		genStrList(repo, &spec.StrLists[i], &cs)
 	}
 	for _, c := range spec.Consts {
 		p := loadPkg(repo, c.Dir)
